@@ -39,6 +39,7 @@ type Line struct {
 type Script struct {
 	Lines    []Line `json:"lines"`
 	HasTool  bool   `json:"has_tool,omitempty"`  // this script's PATH contains the optional tool
+	WorkTool bool   `json:"work_tool,omitempty"` // this script installs the second optional tool under its own $WORK/bin
 	DupEntry bool   `json:"dup_entry,omitempty"` // the archive names one file twice
 	Base     int    `json:"base,omitempty"`      // with Plan.OwnDirs: which base name the script file has
 }
@@ -60,13 +61,13 @@ type Plan struct {
 }
 
 var kinds = []string{"mkdir", "cp", "mv", "rm", "cd", "cdback", "env", "envexpand", "exists", "notexists", "execfg", "execenv", "execpwd", "execbg", "execbgshort", "wait",
-	"toolguard", "notoolguard", "stop", "skip", "fail", "negfail", "probe", "probe", "defer", "defer", "writecanary", "deferfail", "execbgsave"}
+	"toolguard", "notoolguard", "stop", "skip", "fail", "negfail", "probe", "probe", "defer", "defer", "writecanary", "deferfail", "execbgsave", "worktool"}
 
 func genPlan(t *rapid.T, tier string) any {
 	p := &Plan{SetupFail: -1}
 	n := rapid.IntRange(2, 4).Draw(t, "scripts")
 	for i := 0; i < n; i++ {
-		s := Script{HasTool: rapid.Bool().Draw(t, "hastool")}
+		s := Script{HasTool: rapid.Bool().Draw(t, "hastool"), WorkTool: rapid.Bool().Draw(t, "worktool")}
 		nl := rapid.IntRange(2, 9).Draw(t, "nlines")
 		for k := 0; k < nl; k++ {
 			s.Lines = append(s.Lines, Line{Kind: rapid.SampledFrom(kinds).Draw(t, "kind"), Arg: rapid.IntRange(0, 3).Draw(t, "arg")})
@@ -155,6 +156,13 @@ func scriptText(i int, s Script, tool string) string {
 				foreverBg = false
 			}
 			b.WriteString("wait\n")
+		case "worktool":
+			// every script puts its own $WORK/bin first on PATH; only some install the program there
+			b.WriteString("env PATH=$WORK/bin${:}$PATH\n")
+			if s.WorkTool {
+				fmt.Fprintf(&b, "mkdir bin\ncp w/src bin/w%s\nchmod 755 bin/w%s\n", tool, tool)
+			}
+			fmt.Fprintf(&b, "[exec:w%s] probe has-worktool\n[!exec:w%s] probe no-worktool\n", tool, tool)
 		case "toolguard":
 			fmt.Fprintf(&b, "[exec:%s] probe has-tool\n", tool)
 		case "notoolguard":
@@ -176,7 +184,7 @@ func scriptText(i int, s Script, tool string) string {
 		}
 	}
 	b.WriteString("probe end\n")
-	fmt.Fprintf(&b, "-- a/f.txt --\ncontent of script %d\n-- d/keep.txt --\nkeep %d\n", i, i)
+	fmt.Fprintf(&b, "-- a/f.txt --\ncontent of script %d\n-- d/keep.txt --\nkeep %d\n-- w/src --\n#!/bin/false\n", i, i)
 	if s.DupEntry {
 		fmt.Fprintf(&b, "-- a/f.txt --\nsecond copy %d\n", i)
 	}
@@ -225,6 +233,9 @@ type phase struct {
 	gotmp   string
 	wroot   string
 	end     time.Duration
+	// what the private GOTMPDIR held at the very instant the last of {the scripts, RunT itself} ended
+	endProbed bool
+	atEnd     []string
 }
 
 var timing = regexp.MustCompile(`\(\d+\.\d+s\)`)
@@ -338,7 +349,21 @@ func execute(t *testing.T, p *Plan, dir, tag string, idx []int, tool string, kee
 		if p.WorkdirRoot {
 			params.WorkdirRoot = ph.wroot
 		}
+		runtReturned, ended := false, 0
+		probeEnd := func() {
+			if !runtReturned || ended < len(idx) || ph.endProbed {
+				return
+			}
+			ph.endProbed = true
+			ents, _ := os.ReadDir(ph.gotmp)
+			for _, e := range ents {
+				ph.atEnd = append(ph.atEnd, e.Name())
+			}
+		}
+		root.OnSubEnd = func(*tskit.Sub) { ended++; probeEnd() }
 		testscript.RunT(root, params)
+		runtReturned = true
+		probeEnd()
 		root.Release()
 		ph.subs = root.Subs
 		ph.fatal = root.Fatal_
@@ -461,7 +486,7 @@ func run(t *testing.T, plan any, keep bool) *simcheck.Outcome {
 				if r.Label == "setup-tree" {
 					i := 0
 					fmt.Sscanf(r.Script, "s%d", &i)
-					want := ".tmp/\na/\na/f.txt\nd/\nd/keep.txt"
+					want := ".tmp/\na/\na/f.txt\nd/\nd/keep.txt\nw/\nw/src"
 					got := regexp.MustCompile(` [0-9a-f]+`).ReplaceAllString(r.Body, "")
 					if got != want {
 						out.Violate("initial-tree", "%s script %s: the work directory at Setup holds\n%s\nwant exactly the archive's files\n%s", label, r.Script, got, want)
@@ -541,6 +566,9 @@ func run(t *testing.T, plan any, keep bool) *simcheck.Outcome {
 					names = append(names, e.Name())
 				}
 				out.Violate("leftover-directory", "%s: after the last script the private GOTMPDIR still holds %v", label, names)
+			}
+			if ph.endProbed && len(ph.atEnd) != 0 {
+				out.Violate("leftover-directory", "%s: at the instant the last script's run ended (RunT had returned) the private GOTMPDIR still held %v: the shared temporary root is removed only later, by something that outlives the run", label, ph.atEnd)
 			}
 			if len(wents) != 0 {
 				out.Violate("leftover-directory", "%s: unrequested work directory root in use", label)
@@ -638,7 +666,7 @@ var harness = &simcheck.Harness{
 	Property: "C04",
 	Level:    "exploration",
 	Rule: "rapid draws a batch of 2-4 scripts of 2-9 lines each over the same relative names (mkdir cp mv rm cd env exists, foreground / background stub processes that create files and print their environment and cwd, wait, " +
-		"[exec:tool] guards with per-script PATHs, stop, skip, failing and negated lines, probe and defer custom commands), retention options (TestWork / WorkdirRoot), RequireUniqueNames with a duplicate entry, " +
+		"[exec:tool] guards with per-script PATHs (a shared tool directory that only some scripts have on PATH; a $WORK/bin that every script puts on PATH and only some install the program into), stop, skip, failing and negated lines, probe and defer custom commands), retention options (TestWork / WorkdirRoot), RequireUniqueNames with a duplicate entry, " +
 		"a failing Setup, host GORACE, verbosity, a -parallel limit and a schedule; the batch runs once, then every script runs alone; non-trivial = more context switches than scripts+2; distinct by decision-trace hash",
 	Gen:     genPlan,
 	NewPlan: func() any { return &Plan{} },
